@@ -426,9 +426,41 @@ _LP = pick(8, 10)
 _MAXI = pick(999, 99999)  # the 413 description renders both numbers in decimal: unbounded ints fork per digit count
 
 
+def _replay_413(a: dict) -> str | None:
+    """Declared length: a real falcon.Request; chunked: the duck-typed request (Falcon's test
+    environ cannot carry a body without Content-Length)."""
+    import falcon.testing as ft
+
+    prefix = _PREFIXES[a["pfx"]]
+    health = prefix + "/health"
+    path = prefix + "/" + a["tail"]
+    mw = _middleware._MaxRequestBytesMiddleware(a["cap"], exempt_prefixes=(health,))
+    if a["has_cl"]:
+        try:
+            req = falcon.Request(ft.create_environ(path=path, method="POST", headers={"Content-Length": str(a["cl"])}))
+        except Exception:  # noqa: BLE001
+            req = _MReq(path, a["cl"], a["n"])
+        size = a["cl"]
+    else:
+        req = _MReq(path, None, a["n"])
+        size = a["n"]
+    try:
+        mw.process_request(req, None)  # type: ignore[arg-type]
+        refused = False
+    except falcon.HTTPContentTooLarge:
+        refused = True
+    exempt = path == health or path.startswith(health + "/")
+    if refused and size <= a["cap"]:
+        return f"POST {path!r} with {size} bytes ({'declared' if a['has_cl'] else 'chunked'}) is refused with 413 although max_request_bytes={a['cap']}"
+    if not refused and not exempt and size > a["cap"]:
+        return f"POST {path!r} with {size} bytes ({'declared' if a['has_cl'] else 'chunked'}) passes although max_request_bytes={a['cap']}"
+    return None
+
+
 @cond(q=40, t=120, encoded=[_middleware._MaxRequestBytesMiddleware.process_request],
       stubs=["falcon Request := attribute bag; bounded_stream.read(k) := an object of length min(n, k)"],
-      bound="prefix in {'', '/vgi'}; path = prefix + '/' + any str len<=%d; Content-Length absent | 0..%d; body length 0..%d; max_request_bytes 0..%d" % (_LP, _MAXI, _MAXI, _MAXI))
+      bound="prefix in {'', '/vgi'}; path = prefix + '/' + any str len<=%d; Content-Length absent | 0..%d; body length 0..%d; max_request_bytes 0..%d" % (_LP, _MAXI, _MAXI, _MAXI),
+      replay=_replay_413, signature=lambda a, c: "C15:max-request-bytes:wrong-413-decision")
 def oversize_request_is_413(pfx: int, tail: str, has_cl: bool, cl: int, n: int, cap: int) -> bool:
     """
     pre: 0 <= pfx <= 1 and len(tail) <= _LP and 0 <= cl <= _MAXI and 0 <= cap <= _MAXI and 0 <= n <= _MAXI
